@@ -78,7 +78,9 @@ ALL_GROUPS = ("g_derived", "g_rate", "g_tconv", "g_ser", "temp")
 
 
 def _cargo_harness(be, groups, astro=True):
-    feats = (["astro"] if (be == "f64" and astro) else []) + (["dec"] if be == "dec" else []) + ["serde"] + list(groups)
+    # `serde` (which switches on quantities/serde) only when the serialisation group is built
+    feats = (["astro"] if (be == "f64" and astro) else []) + (["dec"] if be == "dec" else []) + \
+        (["serde"] if "g_ser" in groups else []) + list(groups)
     env = dict(ENV, CARGO_TARGET_DIR=os.path.join(CACHE, f"target-{be}"), RUSTFLAGS="-Awarnings")
     return subprocess.Popen(["cargo", "build", "--features", ",".join(feats), "--message-format=short"],
                             cwd=os.path.join(VERIF, "harness"), env=env, stdout=subprocess.PIPE,
